@@ -385,7 +385,7 @@ def run_shard(ctx):
             check_export_forms(ctx, key, is_private, K.numbers_of_jwk(jwk), jwk, rep, extra)
 
 
-REQUIRE = [("exports", 800, "export forms"), ("reimports", 800, "re-imports compared"), ("malformed_offered", 1000, "malformed JWKs"),
+REQUIRE = [("exports", 300, "export forms"), ("reimports", 300, "re-imports compared"), ("malformed_offered", 400, "malformed JWKs"),
            ("interop_sign_verify", 200, "sign/verify interop"), ("interop_ecdh", 50, "ECDH interop"),
            ("forced_leading_zero_x", 4, "EC x with leading zero octet"), ("forced_leading_zero_d", 4, "EC d with leading zero octet")]
 
